@@ -25,11 +25,18 @@ ASSUMPTIONS = [
 ]
 
 
-def harness():
-    exe = common.build("ringbuffer_proj", ["containers/ringbuffer_harness.cpp"], FLAGS + ["-DVS_PROJECT"], [], may_fail=True)
+PLAIN_FLAGS = ["-O1", "-g", "-UNDEBUG", "-fno-lifetime-dse", "-fno-omit-frame-pointer"]
+
+
+def harness(sanitize=True):
+    """C09 runs the sanitized build (memory errors are its subject); C04 runs an unsanitized build so that a
+    wrong index shows as wrong contents instead of ending the history at the first out-of-bounds access."""
+    flags = FLAGS if sanitize else PLAIN_FLAGS
+    tag = "asan" if sanitize else "plain"
+    exe = common.build("ringbuffer_proj_" + tag, ["containers/ringbuffer_harness.cpp"], flags + ["-DVS_PROJECT"], [], may_fail=True)
     if exe is not None:
         return exe, True
-    return common.build("ringbuffer_plain", ["containers/ringbuffer_harness.cpp"], FLAGS, []), False
+    return common.build("ringbuffer_noproj_" + tag, ["containers/ringbuffer_harness.cpp"], flags, []), False
 
 
 def graphs(tier):
@@ -148,10 +155,11 @@ def compare(g, init, path, ty, recs):
                     c09 = "step %d (%s): values %s are still alive but no longer in any container (not destroyed)" % (i, opname, sorted((extra - maybe).elements()))
     if crash is not None:
         txt = crash.get("stderr", "")
-        if "Assertion" in txt and "Sanitizer" not in txt:
-            c04 = c04 or "assertion failed during a valid history: " + txt[:200]
+        if "Sanitizer" in txt:
+            c09 = c09 or "sanitizer report during a valid history: " + " ".join(txt.split())[:300]
         else:
-            c09 = c09 or "sanitizer / signal during a valid history: " + " ".join(txt.split())[:300]
+            c04 = c04 or "history ended by signal %s / %s" % (crash.get("sig"), " ".join(txt.split())[:200])
+            c09 = c09 or "signal %s during a valid history: %s" % (crash.get("sig"), " ".join(txt.split())[:200])
     elif fin is not None and c09 is None:
         if fin.get("anom"):
             c09 = "after destroying everything: " + fin["anom"][0]
@@ -269,7 +277,7 @@ def y_events(recs, steps):
 def check(pid, tier, seed):
     t0 = time.time()
     verdict = common.Verdict(pid)
-    exe, projecting = harness()
+    exe, projecting = harness(sanitize=(pid == "C09"))
     mcs = model_checks(tier)
     total_states = total_edges = replayed = wanted = 0
     nexec = 0
@@ -331,8 +339,8 @@ def check(pid, tier, seed):
         for x, c in ycfg.items():
             recs = yres.get(x, [])
             crash = next((r for r in recs if r.get("e") == "Crash"), None)
-            if crash and "Assertion" in crash.get("stderr", "") and "Sanitizer" not in crash.get("stderr", ""):
-                verdict.violation("ringbuffer[%s] assertion in random history" % c["ty"], crash["stderr"][:300],
+            if crash and "Sanitizer" not in crash.get("stderr", ""):
+                verdict.violation("ringbuffer[%s] random history ended by a signal" % c["ty"], crash.get("stderr", "")[:300],
                                   {"component": "ringbuffer", "header": c["header"], "history": c["steps"]})
     else:
         for x, c in ycfg.items():
@@ -356,7 +364,7 @@ def check(pid, tier, seed):
                         if Counter(inside) - live:
                             prob = "step %d (%s): values %s are in a container but destroyed" % (r["i"], r["op"], sorted((Counter(inside) - live).elements()))
                             break
-            if prob is None and crash is not None and not ("Assertion" in crash.get("stderr", "") and "Sanitizer" not in crash.get("stderr", "")):
+            if prob is None and crash is not None:
                 prob = "sanitizer / signal during a valid history: " + " ".join(crash.get("stderr", "").split())[:300]
             if prob is None and fin is not None:
                 if fin.get("anom"):
